@@ -29,7 +29,7 @@ ASSUMPTIONS = [
 ]
 TRUSTED = []
 
-PRODUCER = ["feed1", "feed2", "feed0", "begin", "end", "eof", "exc"]
+PRODUCER = ["feed1", "feed2", "feed0", "feed5", "begin", "end", "eof", "exc"]
 CONSUMER = ["read1", "read2", "readall", "readany", "readline", "readexactly2", "readchunk", "nowait1", "nowaitall",
             "iterchunks", "iterany", "iterchunked2", "iterline"]
 ITER = {"iterchunks": lambda sr: sr.iter_chunks(), "iterany": lambda sr: sr.iter_any(),
@@ -121,10 +121,11 @@ def script(ctx, k=4, limit=1, first=(), ops=None, sym_limit=False):
             op = first[i] if i < len(first) else ctx.pick(f"op{i}", ops)
             trace.append(op)
             nres = len(results)
-            if op in ("feed1", "feed2", "feed0"):
+            if op in ("feed1", "feed2", "feed0", "feed5"):
                 if eof:
                     continue
-                n = {"feed1": 1, "feed2": 2, "feed0": 0}[op]
+                # (feed5: one segment well above the high-water mark of the small limits used here)
+                n = {"feed1": 1, "feed2": 2, "feed0": 0, "feed5": 5}[op]
                 c = ctx.bytes(f"d{i}", n) if n else b""
                 fed = fed + c
                 sr.feed_data(c)
@@ -302,6 +303,6 @@ REQUIRED_OUTCOMES = ("eof", "open", "open:blocked", "wm")
 
 
 def bounds(tier):
-    return {"script_length": "4 (quick) / 5 (thorough) over 20 operations, all scripts; chunk conversations: prefix begin,feed + 3-4 (quick) / 4-5 more ops over 8 operations",
-            "data": "feed_data of 0/1/2 fully symbolic bytes", "limit": "1 (all scripts), 2 (k=4, 9 ops), symbolic 1..3 (k=3); water-mark lemma for every limit in 1..2**40",
+    return {"script_length": "4 (quick) / 5 (thorough) over 21 operations, all scripts; chunk conversations: prefix begin,feed + 3-4 (quick) / 4-5 more ops over 8 operations",
+            "data": "feed_data of 0/1/2/5 fully symbolic bytes", "limit": "1 (all scripts), 2 (k=4, 9 ops), symbolic 1..3 (k=3); water-mark lemma for every limit in 1..2**40",
             "reads": "read(1) read(2) read(-1) readany readline readexactly(2) readchunk read_nowait(1) read_nowait(-1); one step of iter_chunks / iter_any / iter_chunked(2) / async-for lines on a persistent iterator"}
